@@ -110,6 +110,17 @@ func runBackoff(c BackoffCase) *vkit.Outcome {
 			if errorEvents != c.Events {
 				o.Failf(P, "error-callback-events", "error callback got %d events, batch has %d", errorEvents, c.Events)
 			}
+			// routing of the given-up batch: with a dead queue the batch must come back EMPTY (its events
+			// now belong to the dead queue, the main batcher must not commit them); without one it keeps
+			// its events so that the main batcher commits them after the error was reported.
+			left := 0
+			batch.ForEach(func(*pipeline.Event) { left++ })
+			if c.DeadQueue && left != 0 {
+				o.Failf(P, "given-up-batch-not-handed-over", "dead queue available, batch given up after %d calls / %v, but %d events are still in the batch: the main batcher would commit them as well", len(calls), total, left)
+			}
+			if !c.DeadQueue && left != c.Events {
+				o.Failf(P, "given-up-batch-lost-events", "no dead queue, batch given up, but only %d of %d events are left for the main batcher to commit", left, c.Events)
+			}
 			o.Class("gave-up")
 		} else {
 			if !succeeded {
